@@ -36,12 +36,12 @@ Definition barg_vars (args : list barg) : list var :=
 
 Definition inter (a b : list var) : list var := filter (fun x => mem_var x b) a.
 
-(* a sub-select whose modifiers are insensitive to the order of its input: an explicit projection,
+(* a sub-select whose modifiers are insensitive to the order of its input: a projection (explicit or SELECT star),
    no aggregation, no cut *)
 Definition simple_sub (s : subspec) : bool :=
-  match ss_proj s, aggs_of (ss_proj s), ss_group s, ss_limit s with
-  | Some _, [], [], None => true
-  | _, _, _, _ => false
+  match aggs_of (ss_proj s), ss_group s, ss_limit s with
+  | [], [], None => true
+  | _, _, _ => false
   end.
 
 (* variables some solution may bind *)
